@@ -34,10 +34,18 @@ func (m *MovingMin[T]) Compute(c <-chan T) <-chan T {
 	cs[1] = helper.Shift(cs[1], m.Period, 0)
 
 	bst := helper.NewBst[T]()
+	inserted := 0
 
 	mins := helper.Operate(cs[0], cs[1], func(c, b T) T {
 		bst.Insert(c)
-		bst.Remove(b)
+
+		// The first Period values of the shifted stream are fill values, not inputs.
+		if inserted < m.Period {
+			inserted++
+		} else {
+			bst.Remove(b)
+		}
+
 		return bst.Min()
 	})
 
